@@ -1254,6 +1254,26 @@ func (s *vfSM) doSweep(prog []vfOp, j int, vs *[]*vfViol) {
 					s.replaying = true
 					s.add(vs, s.classifyRead("Get (during sweep)", po.Key, gv, gok, now))
 					s.replaying = false
+				case "iter":
+					// only what speaks about a yielded value by itself: provenance and expiry (the entries of the bucket
+					// that the sweep has not reached yet are expired and must not be enumerated)
+					for _, f := range strings.Split(po.Res, ",") {
+						if f == "" {
+							continue
+						}
+						var v uint64
+						fmt.Sscanf(f, "%d", &v)
+						ti := s.toks[v]
+						if ti == nil {
+							s.add(vs, vfV("C01", "value-nobody-stored", "IterValues (during sweep) yielded %d which no Set supplied", v))
+							continue
+						}
+						if ent, in := s.resident[ti.key]; in && ent.tok == v {
+							if served, _ := s.served(ent, now); !served {
+								s.add(vs, vfV("C07", "served-after-expiry", "IterValues (during sweep) yielded %d (key %d) at %v although it expired at %v", v, ti.key, now.Format("15:04:05.000000000"), ent.exp.Format("15:04:05.000000000")))
+							}
+						}
+					}
 				}
 			}
 		case vfCBEvict:
